@@ -350,6 +350,9 @@ class Verdict:
         self.violations = []   # (site, what, replay_payload, found_input: bool)
         self.known = known_findings(prop)
 
+    def is_known(self, site):
+        return any(k.get("site") == site for k in self.known)
+
     def add(self, site, what, payload, found_input=True):
         self.violations.append((site, what, payload, found_input))
 
